@@ -228,9 +228,11 @@ def sample_variants():
 
 def converter(repo):
     f = repo.func("gene::Gene._init_alleles")
-    pm = [n for n in f.body if isinstance(n, ast.FunctionDef) and n.name == "process_mutation"]
-    if not pm:
-        raise AnalysisError("nested converter process_mutation not found in Gene._init_alleles")
+    # the nested generator that turns a database row into Mutation records (by role, not by name)
+    pm = [n for n in f.body if isinstance(n, ast.FunctionDef) and any(isinstance(x, (ast.Yield, ast.YieldFrom)) for x in ast.walk(n))
+          and any(isinstance(c, ast.Call) and call_name(c) == "Mutation" for c in ast.walk(n))]
+    if len(pm) != 1:
+        raise AnalysisError("nested variant converter (a generator yielding Mutation records) not found in Gene._init_alleles")
     return f, pm[0]
 
 
@@ -259,7 +261,7 @@ def r12(repo, res):
             try:
                 ev = Evaluator(env, funcs={"rev_comp": rev_comp, "Mutation": Mut})
                 ev._exec(pm)
-                ys = ev.locals["process_mutation"]("a1", p, op, ["rs1", "X1Y"])
+                ys = ev.locals[pm.name]("a1", p, op, ["rs1", "X1Y"])
             except (Unfoldable, Raised) as e:
                 res.err("C08.R1", f"process_mutation outside folding language: {e}")
                 return
